@@ -140,6 +140,15 @@ class Gen3(c20.Gen):
                              ["new", "Conditional", self.bad_name(), a], ["new", "Backreference", str(self.bad_name()) + "-"]])
         if k < 0.35:
             return r.choice([["new", "Date", self.date_format()], ["new", "Date", ["list", self.date_format(), self.date_format()]]])
+        if k < 0.42:
+            # class operators with an operand that is neither a class nor a single character / token:
+            # CannotBeUnionedException / CannotBeSubtractedException are due, in both operand orders
+            cls = r.choice([["named", "AnyDigit"], ["named", "AnyLetter"], ["AnyFrom", "a", "b"], ["named", "AnyButDigit"],
+                            ["AnyButFrom", "x"], ["Any"]])
+            wrong = r.choice(["ab", "", 5, None, 1.5, True, ["lit", "ab"], ["new", "WordBoundary"], ["new", "NonWordBoundary"],
+                              ["new", "Optional", ["lit", "a"]], ["new", "Group", ["lit", "a"]], ["list", "a"], ["empty"]])
+            sym = r.choice(["|", "-"])
+            return ["op", sym, cls, wrong] if r.random() < 0.5 else ["op", sym, wrong, cls]
         if k < 0.5:
             # a quantified (not fixed-width) pattern as a lookbehind assertion: NonFixedWidthPatternException is due
             lit = r.choice([["lit", r.choice(["a", "ab", "x"])], ["named", "AnyDigit"], ["AnyFrom", "a", "b"], ["AnyFrom", "a", "\\"],
